@@ -93,7 +93,26 @@ pub fn case(ctx: &mut CaseCtx) {
     let mut opts = SchemaOpts::default();
     opts.max_namespaces = 3;
     let gs = gen_schema(&mut ctx.rng, &opts);
-    let st_json = PrintStyle { unqualified: ctx.rng.bool(), loose_json: ctx.rng.bool() };
+    // JSON-only shape: a common type and an entity type with the same name in one namespace (legal in the JSON
+    // syntax, where {"type":"Entity"} and a common-type reference are spelled differently; the Cedar syntax cannot
+    // tell them apart, so the library's translation must either refuse or stay faithful)
+    let mut gs = gs;
+    let name_collision = !one_sided && ctx.rng.chance(1, 6);
+    if name_collision {
+        let cands: Vec<String> = gs.entity_types.iter().filter(|e| e.enum_ids.is_none()).map(|e| e.name.clone()).collect();
+        let victim = ctx.rng.pick_clone(&cands);
+        gs.common_types.push((victim.clone(), if ctx.rng.bool() { GType::Long } else { GType::Rec(vec![GAttr { name: "k".into(), ty: GType::Str, required: true }]) }));
+        // a must-be-entity reference and a must-be-common reference to that name
+        let holder = ctx.rng.below(gs.entity_types.len());
+        if gs.entity_types[holder].enum_ids.is_none() {
+            gs.entity_types[holder].attrs.retain(|a| a.name != "zref" && a.name != "zcommon");
+            gs.entity_types[holder].attrs.push(GAttr { name: "zref".into(), ty: GType::Ent(victim.clone()), required: true });
+            gs.entity_types[holder].attrs.push(GAttr { name: "zcommon".into(), ty: GType::Common(victim.clone()), required: false });
+        }
+        ctx.count("name-collision:common-type-named-like-entity-type");
+    }
+    let json_only = one_sided || name_collision;
+    let st_json = PrintStyle { unqualified: ctx.rng.bool(), loose_json: !name_collision && ctx.rng.bool() };
     let st_cedar = PrintStyle { unqualified: ctx.rng.bool(), loose_json: false };
     ctx.count(&format!("style:json-unqualified={},loose={},cedar-unqualified={}", st_json.unqualified, st_json.loose_json, st_cedar.unqualified));
     let mut j = gs.to_json(&st_json);
@@ -132,7 +151,7 @@ pub fn case(ctx: &mut CaseCtx) {
     };
     ctx.count("loaded:json");
     let mut schemas: Vec<(&'static str, Schema)> = vec![];
-    if !one_sided {
+    if !json_only {
         let (frag_c, _w) = match SchemaFragment::from_cedarschema_str(&c) {
             Ok(x) => x,
             Err(e) => return ctx.harness_error(format!("Cedar rendering rejected: {} :: {}", bridge::err_chain(&e), c)),
